@@ -479,6 +479,26 @@ def R5_exact_remainders(run):
     for p in INCR_PRIMS:
         fn = facts.need_fn(p)
         check_remainder_exact(run, "R5", fn)
+    # the (lower, upper) ordering every delta is computed from
+    po = facts.need_fn(TM + "increasing_price_order")
+    run.touch(po)
+    ats = [at for at in A.atoms(po) if at.cond() and at.cond()[0] in ("Gt", "Lt", "Ge", "Le")]
+    ok = len(ats) == 1
+    if ok:
+        at = ats[0]
+        c = at.cond()
+        first_greater = (c[0] in ("Gt", "Ge")) == is_param(c[1], "sqrt_price_0")
+        res = {}
+        for truth in (True, False):
+            pva = prov_assuming(po, [(at, truth)])
+            for bi, bb in enumerate(po.blocks):
+                if bb["t"]["k"] == "ret" and pva.flow.state_in[bi] is not None:
+                    vals = [strip(x) for x in leaves(pva.local(0, bi, len(bb["s"])))]
+                    res[truth] = [tuple(strip(y)[1] for y in v[1]) for v in vals if v[0] == "tuple"]
+        # when sqrt_price_0 is the greater one the pair is swapped
+        sw, keep = [("sqrt_price_1", "sqrt_price_0")], [("sqrt_price_0", "sqrt_price_1")]
+        ok = (res.get(True) == sw and res.get(False) == keep) if first_greater else (res.get(True) == keep and res.get(False) == sw)
+    run.check("R5", "price-order", ok, "increasing_price_order does not return (min, max) of its two prices", loc=po.loc(), detail="(lower, upper) = (min, max)")
 
 
 def R6_reach_target_decision(run):
